@@ -155,6 +155,9 @@ def gen(args):
             out.append(c2)
         elif v == 1:     # positive affine map of the target
             A, B = int(rng.integers(1, 5)), int(rng.integers(-7, 8))
+            if d == 1 and rng.random() < 0.5:
+                # total energies: an offset five orders of magnitude above the gaps between the samples and the surface
+                B = int(rng.choice([-3, -2, -1, 1, 2, 3])) * 100000
             P2 = P.copy(); P2[:, 0] = A * P[:, 0] + B
             c2 = fit_case(cid + "-affine", "affine-y", P2, Hd, order, [], s, tol, xdt)
             c2.update({"nbase": N, "basesel": base["sel"], "basedq": base["dq"], "A": A, "B": B})
